@@ -578,6 +578,10 @@ Value Search::search(Position& position, Depth depth, Value alpha, Value beta,
         LOG_DEBUG("[%d] UNDO MOVE %s", info->_ply,
                   position.uci(move).c_str());
 
+        // the search is being abandoned: the value that came back is not a
+        // value of the child, nothing derived from it may reach the table
+        if (stop_search) EXIT_SEARCH(Value(0));
+
         if (is_mate(result))
         {
             result += result > VALUE_DRAW ? -1 : 1;
